@@ -21,7 +21,7 @@ def run(ctx):
     if not q:
         C += PC.text_holes(ctx, own, ks, vis=(4,), timeout=2400)
     C += PC.spell_holes(ctx, own, range(0, len(P.SPELL), 2) if q else range(len(P.SPELL)))
-    C += PC.label_holes(ctx, own, [P.skel('f"a'), 0] + _pipe.pick(ctx, 1, len(P.SKELS)) if q else range(len(P.SKELS)),
+    C += PC.label_holes(ctx, own, [P.skel('f"a'), P.skel("f'''"), P.skel('((((')] + _pipe.pick(ctx, 1, len(P.SKELS)) if q else range(len(P.SKELS)),
                         vis=(4,) if q else (0, 4, 8))
     if not q:
         for k in (0, 4, 10):
@@ -31,4 +31,7 @@ def run(ctx):
                                  name='pipe/label2#%d@%d' % (k, pos), extra_pre=['k == %d' % k, 'vi == 4', 'pos == %d' % pos],
                                  bound='two adjacent tokens from the complete label alphabet inserted at position %d of skeleton %d' % (pos, k),
                                  realised='two label indices'))
+    from . import C09
+    ctx.encode('parso.python.tokenize token patterns (termination of the backtracking matcher)')
+    C09.redos_lemmas(ctx)
     xh.run_conditions(ctx, C)
